@@ -533,3 +533,37 @@ def from_jsonable(j):
     if j[0] in ('var', 'const'):
         return (j[0], None, j[2])
     return (j[0], tuple(j[1]) if j[1] is not None else None) + tuple(from_jsonable(k) for k in j[2:])
+
+
+# ---------------------------------------------------------------------------------------
+# dense time workloads
+
+def dense_cfg(rng, **kw):
+    nv = rng.choice([1, 2, 2, 3])
+    c = GenCfg(vars=list(VAR_POOL[:nv]), max_depth=rng.choice([1, 2, 2, 3, 3, 4]), prevnext=False, events=False,
+               max_bound=rng.choice([4, 8, 12]), bound_step=Fraction(1, 4))
+    c.__dict__.update(kw)
+    return c
+
+
+def gen_signal(rng, n=None, start=None, step=Fraction(1, 4), aligned_to=None):
+    """Piecewise-constant signal as [(t, v)] with increasing stamps (multiples of ``step``)."""
+    n = n or rng.choice([1, 2, 3, 4, 5, 6, 8])
+    if start is None:
+        start = Fraction(0) if rng.random() < 0.65 else step * rng.randint(1, 14)
+    t, out = Fraction(start), []
+    for _ in range(n):
+        out.append((t, rng.choice(SMALL)))
+        t = t + step * rng.choice([1, 1, 2, 3, 4, 4, 6, 10])
+    return out
+
+
+def gen_signals(rng, names):
+    r = rng.random()
+    if r < 0.3:      # aligned: same stamps for every variable
+        base = gen_signal(rng)
+        return dict((k, [(t, rng.choice(SMALL)) for (t, _) in base]) for k in names)
+    if r < 0.45:     # same start, independent break-points
+        st = Fraction(0) if rng.random() < 0.7 else Fraction(rng.randint(1, 14), 4)
+        return dict((k, gen_signal(rng, start=st)) for k in names)
+    return dict((k, gen_signal(rng)) for k in names)
